@@ -63,6 +63,7 @@ bool exec_gen(ExecCtx &c) {
       }
       bool differ = route != 0 && !grids_logically_equal(*g, *supplied);
       std::optional<Gen> tmp;
+      if (op.kind == OP_N_NEW && differ) sim::g_cur->note = 1;
       libcall(out, [&] {
         if (route == 0) tmp.emplace(knots);
         else tmp.emplace(knots, *supplied);
@@ -330,6 +331,7 @@ bool exec_numint(ExecCtx &c) {
           }
           uint32_t deg = op.c % 3;
           double got = 0;
+          if (!same) sim::g_cur->note = 1;
           libcall(out, [&] {
             auto f = [deg](const double &t) {
               sim::tick_callback();
